@@ -664,8 +664,34 @@ class Fn:
                 return ("fn", op["fn"].get("rshort") or op["fn"]["short"])
             if "int" in op:
                 return ("int", int(op["int"]))
+            if op.get("promoted") and "promoted_index" in op and _scalarish_ref(op.get("ty", "")):
+                v = self._promoted_value(op["promoted_index"])
+                if v is not None:
+                    return v
             return ("const", op.get("disp", "?"), op.get("ty", ""))
         return ("op?", op.get("dbg", ""))
+
+    def _promoted_value(self, idx):
+        """the value a `promoted[idx]` constant of this body stands for: what its (straight-line, parameter-free) promoted
+        body returns — typically `&<aggregate or constant>`; None if the body is not available or not that simple"""
+        key = ("promoted", idx)
+        if key in self._cache:
+            return self._cache[key]
+        self._cache[key] = None
+        for pb in self.rec.get("promoted_bodies", []) or []:
+            if pb.get("index") != idx or not pb.get("mir"):
+                continue
+            try:
+                g = Fn({"short": "%s::promoted[%d]" % (self.short, idx), "path": self.rec.get("path", ""), "kind": "Promoted", "mir": pb["mir"],
+                        "loc": self.rec.get("loc", ""), "generics": self.rec.get("generics", [])}, self.prog)
+                rets = g.return_blocks()
+                if len(rets) == 1 and not g.has_loop() and not [1 for _b, _t in g.calls(True)]:
+                    e = g.deep_simplify(g.return_expr(rets[0]))
+                    if not any(isinstance(x, tuple) and x and x[0] in ("param", "phi", "memdef", "uninit", "undef", "mem0", "cyc") for x in walk(e)):
+                        self._cache[key] = e
+            except Exception:
+                pass
+        return self._cache[key]
 
     def version_expr(self, ver):
         memo = self._cache.setdefault("vexpr", {})
@@ -876,7 +902,7 @@ def simplify(e):
             c = a[2]
             return ("int", int(c)) if c.isdigit() else ("cparam", c)
     if e[0] == "load" and len(e) == 4 and isinstance(e[1], tuple) and e[1][:1] == ("ref",) and isinstance(e[1][1], tuple) and e[1][1][:1] == ("local",) \
-            and len(e[1][1]) == 3 and e[3][0] == "entry" and e[2] and all(isinstance(p_, str) for p_ in e[2]):
+            and len(e[1][1]) == 3 and e[3][0] == "entry" and all(isinstance(p_, str) for p_ in e[2]):
         # memory "at entry" of a callee behind `&local`: the local's value at the call
         v = e[1][1][2]
         for p_ in e[2]:
@@ -1072,6 +1098,16 @@ def fmt(e, fn=None, depth=0):
     if k == "as":
         return "%s as %s" % (f(e[1]), e[2])
     return "%s(…)" % k
+
+
+def _scalarish_ref(ty):
+    """promoted constants worth resolving: references to integers and to std range types (`&N`, `&(0..N)`, `&(0..=N)`);
+    promoted arrays (`&[]`) stay opaque constants, which is how the slice rules know an empty slice"""
+    t = ty.replace(" ", "")
+    if not t.startswith("&"):
+        return False
+    t = t.lstrip("&")
+    return t in ("usize", "u8", "u16", "u32", "u64", "isize", "bool") or t.startswith("core::ops::range::Range") or t.startswith("core::ops::Range")
 
 
 def checked_sub_payload(e):
